@@ -891,7 +891,57 @@ def rule_codec_pos(ctx, R):
             R.finding(b.fn, "position:never-advanced", "the parser never advances past a parsed frame", b.loc(c))
 
 
+_PT_WRAP = re.compile(prov.PASS_THROUGH.pattern[:-1] + r"|FromResidual<.*>>::from_residual$)")
+
+
 MIN_WIRE_ELEMENT = 3      # `_\r\n`, `+\r\n`, `-\r\n`: the shortest RESP element
+
+
+def _option_ctor_sites(b, local, maxn=200):
+    """where the Option (possibly wrapped in Ok / passed through `?`) held by `local` was built:
+    (blocks that construct None, other-sources?) -- follows copies, Ok{..}/Continue{..} wrappers,
+    downcasts and Try::branch; `Some{..}` constructions and calls into the parser are fine (a call
+    is examined where its own result is switched on); anything else counts as unknown"""
+    nones = []; unknown = False
+    seen = set(); st = [local]
+    defs = prov.build_defs(b)
+    while st and len(seen) < maxn:
+        cur = st.pop()
+        if cur in seen:
+            continue
+        seen.add(cur)
+        ds = defs.get(cur, ())
+        if not ds:
+            unknown = True
+        for kind, db, x in ds:
+            if kind == "call":
+                f = x["f"] or ""
+                if re.search(r"std::ops::Try>::branch$", f) and x["a"] and not op_is_const(x["a"][0]):
+                    st.append(op_place(x["a"][0])["l"])
+                elif re.search(r"FromResidual<.*>>::from_residual$", f):
+                    pass                  # the Err path: never an Option
+                elif callee(x).startswith(PARSER):
+                    pass                  # a sub-parser's own verdict: a None from it is legitimate
+                else:
+                    unknown = True
+                continue
+            if x["l"]["p"]:
+                continue
+            r = x["r"]
+            if r["k"] == "agg":
+                if r["a"] == "std::option::Option::None":
+                    nones.append(db)
+                elif r["a"] == "std::option::Option::Some":
+                    pass
+                elif r["a"] in ("std::result::Result::Ok", "std::ops::ControlFlow::Continue") and r["o"] and not op_is_const(r["o"][0]):
+                    st.append(op_place(r["o"][0])["l"])
+                else:
+                    unknown = True
+            elif r["k"] == "use" and not op_is_const(r["o"]):
+                st.append(op_place(r["o"])["l"])
+            else:
+                unknown = True
+    return nones, unknown
 
 
 def rule_codec_incomplete(ctx, R):
@@ -922,8 +972,35 @@ def rule_codec_incomplete(ctx, R):
                     P = prov.origins(b, st["r"]["p"]["l"])
                     if any(r[0] == "call" and callee(b.term(r[2])).startswith(PARSER) for r in P.roots):
                         ts = dict(t["ts"])
-                        if 0 in ts:
-                            none_regs |= cfg.edge_dom_set(b, x, ts[0])
+                        none_t = ts[0] if 0 in ts else (t["o"] if 1 in ts else None)     # `let Some(..) = x else {..}` lists Some only
+                        if none_t is not None:
+                            none_regs |= cfg.edge_dom_set(b, x, none_t)
+        # derived: an Option (or Result<Option>) local all of whose `None` constructions lie in a
+        # none-region (a helper -- inlined -- that re-wraps a sub-parser's verdict) carries that
+        # verdict: the None edge of a switch on it is a none-region too
+        for _round in range(4):
+            grew = False
+            for x, bb in enumerate(b.bbs):
+                t = bb["t"]
+                if t["k"] != "switch" or bb.get("cleanup"):
+                    continue
+                dl = op_local(t["d"])
+                for st in bb["s"]:
+                    if not (st["k"] == "=" and st["l"]["l"] == dl and st["r"]["k"] == "discr"):
+                        continue
+                    base = st["r"]["p"]["l"]
+                    if not re.search(r"std::option::Option<", b.locals[base]):
+                        continue
+                    nones, unknown = _option_ctor_sites(b, base)
+                    if nones and not unknown and all(x_ in none_regs for x_ in nones):
+                        ts = dict(t["ts"])
+                        none_t = ts[0] if 0 in ts else (t["o"] if 1 in ts else None)
+                        if none_t is not None:
+                            reg = cfg.edge_dom_set(b, x, none_t)
+                            if not reg <= none_regs:
+                                none_regs |= reg; grew = True
+            if not grew:
+                break
         # blocks that build Ok(None)
         for x, bb in enumerate(b.bbs):
             if bb.get("cleanup"):
